@@ -114,7 +114,6 @@ func randCols(r *Rng, sk, dk Kind, nch, frames int, allowNil bool) [][]uint64 {
 	return cols
 }
 
-
 // longShape: shapes around the thresholds at which fast paths, unrolling or chunking usually switch
 // (frames next to 32..4096, channel counts up to 32), bounded so that a dump stays below ~4200 cells.
 func longShape(r *Rng) (ch, frames int) {
@@ -566,7 +565,6 @@ func genC05(w *World, r *Rng, tier string) {
 		}
 	}
 }
-
 
 // long buffers, many channels and windows of one parent for the conversions (C05)
 func genC05Long(w *World, r *Rng, tier string) {
